@@ -39,6 +39,7 @@ Definition F_TOTP : N := 6.
 Definition F_BOOT : N := 8.
 Definition F_CLI : N := 10.
 Definition F_FIDO2 : N := 11.
+Definition F_X509 : N := 9.
 
 Definition has (l f : N) : bool := N.testbit l f.
 Definition add (l f : N) : N := N.lor l (2 ^ f).
@@ -93,7 +94,9 @@ Record config := {
   poll_checks_user : bool;   (* VIPPollCheckHandler compares the transaction's user (the repaired code) *)
   totp_monotone : bool;      (* validateUserTOTP refuses steps <= the last accepted one (repaired) *)
   chal_expiry : bool;        (* the finish handlers test the challenge's ExpiresAt (repaired) *)
-  chal_delete_wa : bool      (* u2fSignResponse deletes the challenge on the WebAuthn-key path (repaired) *)
+  chal_delete_wa : bool;     (* u2fSignResponse deletes the challenge on the WebAuthn-key path (repaired) *)
+  upgrade_checks_owner : bool (* updateAuthCookieAuthlevel refuses a cookie of another user than the
+                                 authenticated one (repaired) *)
 }.
 
 Definition init : st :=
@@ -107,6 +110,9 @@ Inductive totpcode := TCode (owner : N) (stp : Z) | TBad.              (* code o
 Inductive bootcode := BCode (owner : N) (serial : N) | BBad.
 Record assertion := { a_owner : N; a_wa_key : bool; a_chal : N }.       (* signed by a key of a_owner, registered as U2F or WebAuthn key *)
 
+(* Req cert fault o: the request of o made over a TLS connection with a verified keymaster client
+   certificate of user `cert` (if any), while profile writes fail (`fault`: the primary database
+   is readable but not writable).  A bare operation is Req None false. *)
 Inductive op :=
 | Login (u : N) (pw_ok : bool)
 | Logout (cs : list nat)
@@ -123,9 +129,10 @@ Inductive op :=
 | Bootstrap (cs : list nat) (code : bootcode)
 | ShowTok (cs : list nat) (life : Z)
 | SendDoc (cs : list nat) (tk : nat)
-| Tick (dt : Z).
+| Tick (dt : Z)
+| Req (cert : option N) (fault : bool) (o : op).
 
-(* ---- checkAuth on the cookie branch ---- *)
+(* ---- checkAuth ---- *)
 Fixpoint attached (s : st) (cs : list nat) : list cookie :=
   match cs with
   | [] => []
@@ -135,7 +142,7 @@ Fixpoint attached (s : st) (cs : list nat) : list cookie :=
 Definition pick (k : config) (l : list cookie) : option cookie :=
   if sel_last k then last (map Some l) None else hd_error l.
 
-(* the session a request runs in, if its level meets the required mask *)
+(* cookie branch: the session a request runs in, if its level meets the required mask *)
 Definition session (k : config) (s : st) (cs : list nat) (mask : N) : option cookie :=
   match pick k (attached s cs) with
   | Some c => if N.eqb (N.land (clevel c) mask) 0 then None else Some c
@@ -143,6 +150,16 @@ Definition session (k : config) (s : st) (cs : list nat) (mask : N) : option coo
   end.
 
 Definition any_mask : N := 65535.
+Definition cert_mask : N := 2 ^ F_X509 + 2 ^ 5.   (* AuthTypeKeymasterX509 | AuthTypeIPCertificate *)
+
+(* who the request is authenticated as, and at which level.  checkAuth looks at the verified client
+   certificate first when the required mask lets certificates in: identity and level
+   (AuthTypeKeymasterX509 alone) then come from the certificate and the cookies are not looked at *)
+Definition auth (k : config) (s : st) (cert : option N) (cs : list nat) (mask : N) : option (N * N) :=
+  match (if N.eqb (N.land mask cert_mask) 0 then None else cert) with
+  | Some u => Some (u, add 0 F_X509)
+  | None => match session k s cs mask with Some c => Some (cuser c, clevel c) | None => None end
+  end.
 
 Definition set_issued (s : st) (l : list cookie) : st :=
   {| issued := l; tokens := tokens s; vip := vip s; txs := txs s; approved := approved s; chal := chal s;
@@ -160,11 +177,19 @@ Definition set_totp (s : st) (l : N -> Z) : st :=
   {| issued := issued s; tokens := tokens s; vip := vip s; txs := txs s; approved := approved s; chal := chal s;
      last_totp := l; boot := boot s; proved := proved s; spent := spent s; now := now s; fresh := fresh s |}.
 
-(* updateAuthCookieAuthlevel: the session cookie re-signed with the new level; the response
-   carries it.  `out` is what the harness decodes from the Set-Cookie header. *)
-Definition upgrade (s : st) (c : cookie) (lvl : N) : st * option cookie :=
-  let c' := {| cuser := cuser c; clevel := lvl |} in
-  (set_issued s (issued s ++ [c']), Some c').
+(* updateAuthCookieAuthlevel(w, r, username, authlevel): the LAST attached auth_cookie is re-signed
+   with the given level (which REPLACES the cookie's own); the repaired code refuses a cookie whose
+   subject is not the authenticated user.  Without a cookie, or on refusal, the handler answers
+   500: whatever it did before (one-time value spent) stays done.  `out` is what the harness
+   decodes from the Set-Cookie header. *)
+Definition upgrade (k : config) (s : st) (u : N) (cs : list nat) (lvl : N) : st * option cookie :=
+  match pick k (attached s cs) with
+  | None => (s, None)
+  | Some c =>
+      if upgrade_checks_owner k && negb (N.eqb (cuser c) u) then (s, None)
+      else let c' := {| cuser := cuser c; clevel := lvl |} in
+           (set_issued s (issued s ++ [c']), Some c')
+  end.
 
 Definition find_vip (s : st) (v : N) : option vipentry := find (fun e => N.eqb (vc e) v) (vip s).
 Definition tx_user (s : st) (tx : N) : option N :=
@@ -179,7 +204,8 @@ Definition has_any_key (d : devices) : bool := has_u2f d || has_wa d.
 Section Step.
 Variable k : config.
 
-Definition step (s : st) (o : op) : st * option cookie :=
+(* one request; `cert`: verified client certificate, `fault`: SaveUserProfile fails *)
+Definition step_req (cert : option N) (fault : bool) (s : st) (o : op) : st * option cookie :=
   match o with
   | Login u ok =>
       if ok then
@@ -188,31 +214,31 @@ Definition step (s : st) (o : op) : st * option cookie :=
       else (s, None)
   | Logout cs => (s, None)
   | VipOtp cs code =>
-      match session k s cs any_mask with
+      match auth k s cert cs any_mask with
       | None => (s, None)
-      | Some c =>
-          (* ValidateUserOTP(authData.Username, otp): the service is asked about the session's user *)
+      | Some (u, l) =>
+          (* ValidateUserOTP(authData.Username, otp): the service is asked about the authenticated user *)
           match code with
           | VGood owner =>
-              if N.eqb owner (cuser c) then
-                let (s1, out) := upgrade s c (add (clevel c) F_VIP) in
+              if N.eqb owner u then
+                let (s1, out) := upgrade k s u cs (add l F_VIP) in
                 (set_ghost s1 ((owner, F_VIP) :: proved s1) (spent s1), out)
               else (s, None)
           | VBad => (s, None)
           end
       end
   | PushStart cs v =>
-      match session k s cs any_mask with
+      match auth k s cert cs any_mask with
       | None => (s, None)
-      | Some c =>
+      | Some (u, l) =>
           match find_vip s v with
           | Some _ => (s, None)
           | None =>
               (* StartUserVIPPush(user): a new transaction, sent to that user's phone *)
               let tx := fresh s in
               ({| issued := issued s; tokens := tokens s;
-                  vip := {| vc := v; vuser := cuser c; vtx := tx |} :: vip s;
-                  txs := (tx, cuser c) :: txs s; approved := approved s; chal := chal s;
+                  vip := {| vc := v; vuser := u; vtx := tx |} :: vip s;
+                  txs := (tx, u) :: txs s; approved := approved s; chal := chal s;
                   last_totp := last_totp s; boot := boot s; proved := proved s; spent := spent s;
                   now := now s; fresh := fresh s + 1 |}, None)
           end
@@ -226,22 +252,21 @@ Definition step (s : st) (o : op) : st * option cookie :=
       | None => (s, None)
       end
   | Poll cs v =>
-      match session k s cs any_mask with
+      match auth k s cert cs any_mask with
       | None => (s, None)
-      | Some c =>
+      | Some (u, l) =>
           match find_vip s v with
           | None => (s, None)
           | Some e =>
-              if poll_checks_user k && negb (N.eqb (vuser e) (cuser c)) then (s, None)
-              else if is_approved s (vtx e) then upgrade s c (add (clevel c) F_VIP)
+              if poll_checks_user k && negb (N.eqb (vuser e) u) then (s, None)
+              else if is_approved s (vtx e) then upgrade k s u cs (add l F_VIP)
               else (s, None)
           end
       end
   | Totp cs code =>
-      match session k s cs any_mask with
+      match auth k s cert cs any_mask with
       | None => (s, None)
-      | Some c =>
-          let u := cuser c in
+      | Some (u, l) =>
           match code with
           | TBad => (s, None)
           | TCode owner stp =>
@@ -250,38 +275,36 @@ Definition step (s : st) (o : op) : st * option cookie :=
               if has_totp (devs k u) && N.eqb owner u && (cur - 1 <=? stp)%Z && (stp <=? cur + 1)%Z then
                 if (if totp_monotone k then (stp <=? last_totp s u)%Z else (last_totp s u =? cur)%Z)
                 then (s, None)
+                else if fault then (s, None)   (* the counter cannot be saved: error, nothing accepted *)
                 else
                   let s1 := set_totp s (upd (last_totp s) u (if totp_monotone k then stp else cur)) in
-                  let (s2, out) := upgrade s1 c (add (clevel c) F_TOTP) in
+                  let (s2, out) := upgrade k s1 u cs (add l F_TOTP) in
                   (set_ghost s2 ((owner, F_TOTP) :: proved s2) (OtTotp owner stp :: spent s2), out)
               else (s, None)
           end
       end
   | U2fBegin cs =>
-      match session k s cs any_mask with
+      match auth k s cert cs any_mask with
       | None => (s, None)
-      | Some c =>
-          let u := cuser c in
+      | Some (u, l) =>
           if has_profile (devs k u) && has_any_key (devs k u) then
             (set_chal s (upd (chal s) u (Some {| chid := fresh s; ch_wa := false; chexp := (now s + 30)%Z |}))
                       (fresh s + 1), None)
           else (s, None)
       end
   | WaBegin cs =>
-      match session k s cs any_mask with
+      match auth k s cert cs any_mask with
       | None => (s, None)
-      | Some c =>
-          let u := cuser c in
+      | Some (u, l) =>
           if has_any_key (devs k u) then
             (set_chal s (upd (chal s) u (Some {| chid := fresh s; ch_wa := true; chexp := (now s + 30)%Z |}))
                       (fresh s + 1), None)
           else (s, None)
       end
   | U2fFinish cs a =>
-      match session k s cs any_mask with
+      match auth k s cert cs any_mask with
       | None => (s, None)
-      | Some c =>
-          let u := cuser c in
+      | Some (u, l) =>
           if has_profile (devs k u) && has_any_key (devs k u) then
             match chal s u with
             | None => (s, None)
@@ -291,17 +314,16 @@ Definition step (s : st) (o : op) : st * option cookie :=
                         && (if a_wa_key a then has_wa (devs k u) else has_u2f (devs k u)) then
                   let del := if a_wa_key a then chal_delete_wa k else true in
                   let s1 := if del then set_chal s (upd (chal s) u None) (fresh s) else s in
-                  let (s2, out) := upgrade s1 c (add (clevel c) F_U2F) in
+                  let (s2, out) := upgrade k s1 u cs (add l F_U2F) in
                   (set_ghost s2 ((a_owner a, F_U2F) :: proved s2) (OtChal (chid ch) :: spent s2), out)
                 else (s, None)
             end
           else (s, None)
       end
   | WaFinish cs a =>
-      match session k s cs any_mask with
+      match auth k s cert cs any_mask with
       | None => (s, None)
-      | Some c =>
-          let u := cuser c in
+      | Some (u, l) =>
           if has_profile (devs k u) then
             match chal s u with
             | None => (s, None)
@@ -313,8 +335,8 @@ Definition step (s : st) (o : op) : st * option cookie :=
                   let s1 := set_chal s (upd (chal s) u None) (fresh s) in
                   (* a key registered through U2F is verified "locally" (U2F); any other through
                      the library (FIDO2); the U2F bit is set in both cases *)
-                  let lvl := if a_wa_key a then add (add (clevel c) F_FIDO2) F_U2F else add (clevel c) F_U2F in
-                  let (s2, out) := upgrade s1 c lvl in
+                  let lvl := if a_wa_key a then add (add l F_FIDO2) F_U2F else add l F_U2F in
+                  let (s2, out) := upgrade k s1 u cs lvl in
                   let pr := if a_wa_key a then (a_owner a, F_FIDO2) :: (a_owner a, F_U2F) :: proved s2
                             else (a_owner a, F_U2F) :: proved s2 in
                   (set_ghost s2 pr (OtChal (chid ch) :: spent s2), out)
@@ -327,14 +349,14 @@ Definition step (s : st) (o : op) : st * option cookie :=
       if has_profile d && negb (has_totp d) && negb (has_u2f d) then
         let dur' := if (dur <? 60)%Z then 60%Z else dur in
         if (86400 <? dur')%Z then (s, None)
+        else if fault then (s, None)
         else (set_boot s (upd (boot s) target (Some {| bserial := fresh s; bexp := (now s + dur')%Z |}))
                        (fresh s + 1), None)
       else (s, None)
   | Bootstrap cs code =>
-      match session k s cs any_mask with
+      match auth k s cert cs any_mask with
       | None => (s, None)
-      | Some c =>
-          let u := cuser c in
+      | Some (u, l) =>
           let d := devs k u in
           if has_totp d || has_u2f d then (s, None)
           else match boot s u with
@@ -344,8 +366,12 @@ Definition step (s : st) (o : op) : st * option cookie :=
                    else match code with
                         | BCode owner serial =>
                             if N.eqb owner u && N.eqb serial (bserial b) then
+                              (* the OTP is cleared and the profile saved BEFORE the upgrade; if the
+                                 save fails the handler stops: nothing accepted, the OTP stays *)
+                              if fault then (s, None)
+                              else
                               let s1 := set_boot s (upd (boot s) u None) (fresh s) in
-                              let (s2, out) := upgrade s1 c (add (clevel c) F_BOOT) in
+                              let (s2, out) := upgrade k s1 u cs (add l F_BOOT) in
                               (set_ghost s2 ((owner, F_BOOT) :: proved s2) (OtBoot owner serial :: spent s2), out)
                             else (s, None)
                         | BBad => (s, None)
@@ -353,32 +379,47 @@ Definition step (s : st) (o : op) : st * option cookie :=
                end
       end
   | ShowTok cs life =>
-      match session k s cs (webui k) with
+      match auth k s cert cs (webui k) with
       | None => (s, None)
-      | Some c =>
-          ({| issued := issued s; tokens := tokens s ++ [{| towner := cuser c; texp := (now s + life)%Z |}];
+      | Some (u, l) =>
+          ({| issued := issued s; tokens := tokens s ++ [{| towner := u; texp := (now s + life)%Z |}];
               vip := vip s; txs := txs s; approved := approved s; chal := chal s; last_totp := last_totp s;
               boot := boot s; proved := proved s; spent := spent s; now := now s; fresh := fresh s |}, None)
       end
   | SendDoc cs tk =>
-      match session k s cs (webui k) with
+      match auth k s cert cs (webui k) with
       | None => (s, None)
-      | Some c =>
+      | Some (u, l) =>
           match nth_error (tokens s) tk with
           | None => (s, None)
           | Some t =>
-              if negb (N.eqb (towner t) (cuser c)) then (s, None)
+              if negb (N.eqb (towner t) u) then (s, None)
               else if (texp t <=? now s)%Z then (s, None)
               else
                 (* a NEW cookie for the token's user carrying only the CLI bit *)
                 let c' := {| cuser := towner t; clevel := add 0 F_CLI |} in
-                (set_ghost (set_issued s (issued s ++ [c'])) ((cuser c, F_CLI) :: proved s) (spent s), Some c')
+                (set_ghost (set_issued s (issued s ++ [c'])) ((u, F_CLI) :: proved s) (spent s), Some c')
           end
       end
   | Tick dt =>
       ({| issued := issued s; tokens := tokens s; vip := vip s; txs := txs s; approved := approved s;
           chal := chal s; last_totp := last_totp s; boot := boot s; proved := proved s; spent := spent s;
           now := (now s + Z.max 0 dt)%Z; fresh := fresh s |}, None)
+  | Req _ _ _ => (s, None)      (* wrappers do not nest *)
+  end.
+
+(* presenting a verified client certificate proves possession of its key: factor KeymasterX509 for
+   its user (ghost) *)
+Definition present_cert (s : st) (cert : option N) : st :=
+  match cert with
+  | Some u => set_ghost s ((u, F_X509) :: proved s) (spent s)
+  | None => s
+  end.
+
+Definition step (s : st) (o : op) : st * option cookie :=
+  match o with
+  | Req cert fault o' => step_req cert fault (present_cert s cert) o'
+  | _ => step_req None false s o
   end.
 
 Fixpoint run (s : st) (ops : list op) : st * list (option cookie) :=
@@ -393,7 +434,7 @@ End Step.
 (* the code as repaired *)
 Definition fixed (d : N -> devices) (w : N) : config :=
   {| devs := d; webui := w; sel_last := true; poll_checks_user := true; totp_monotone := true;
-     chal_expiry := true; chal_delete_wa := true |}.
+     chal_expiry := true; chal_delete_wa := true; upgrade_checks_owner := true |}.
 
 (* ---- correspondence: per step, did the handler answer with success, and the (user, level) of
         the cookie the server emitted.  Success of an operation that emits no cookie shows in the
@@ -403,7 +444,7 @@ Definition changed (s s' : st) : bool :=
 
 Definition step_obs (k : config) (s : st) (o : op) : st * (bool * option cookie) :=
   let (s', out) := step k s o in
-  let ok := match o with
+  let ok := match (match o with Req _ _ o' => o' | _ => o end) with
             | Logout _ | Approve _ | Tick _ => true
             | _ => (match out with Some _ => true | None => false end) || changed s s'
             end in
